@@ -10,7 +10,7 @@ import math
 
 from mc.common import Result, pmap, quiet
 from mc import tree
-from mc.env import Recorder, ulp_dist
+from mc.env import box, Recorder, ulp_dist
 from mc.envs import make_env
 from mc.refmodel import RefAGP
 from mc.solverexp import ALPHABETS
@@ -84,6 +84,64 @@ def judge(cfg, out, itersLimit, eps):
         msgs.append(f"[accuracy] reported accuracy {acc!r} after a single trial (nothing was subdivided)")
     out["ref"] = ref
     return msgs, D
+
+
+WELLS = {
+    # name -> f(u) on the unit interval; the coarse search sees the rim, the refinement falls to the bottom
+    "well": lambda u, c: 0.3 * abs(u - c) - 40.0 * math.exp(-((u - c) / 0.03) ** 2),
+    "dip": lambda u, c: abs(u - c) - 2.0 * max(0.0, 1.0 - abs(u - c) / 0.01),
+    "vee": lambda u, c: 3.0 * abs(u - c),
+}
+
+
+def stepwise_case(task):
+    """DoGlobalIteration(k), DoLocalRefinement(n), Solve: the Solve must run on to the accuracy / budget stop"""
+    kind, c, k, n_loc, limit, eps, N = (task[x] for x in ("kind", "c", "k", "n_loc", "limit", "eps", "N"))
+    cfg = dict(N=N, r=task["r"], box="B1", eps=eps, itersLimit=limit)
+    lo, up = box("B1", N)
+    f = lambda y: float(sum(WELLS[kind]((float(v) - lo[i]) / (up[i] - lo[i]), c) for i, v in enumerate(y)))
+    order = []
+    rec = Recorder(on_iter=lambda pts, sol: order.extend((p.GetX(), p.GetZ()) for p in pts))
+    out = dict(error=None)
+    try:
+        run = tree.make_run(cfg, lambda kk, y: f(y), listeners=[rec])
+        run.step(k)
+        run.refine(n_loc, f)
+        if task.get("again"):
+            run.step(task["again"])
+            run.refine(n_loc, f)
+        sol = run.solve()
+    except BaseException as e:
+        if tree._horizon(run, cfg):
+            return []
+        return [f"raised {type(e).__name__}: {e}"]
+    out.update(run=run, sol=sol, calls=run.problem.calls, n=sol.numberOfGlobalTrials, acc=sol.solutionAccuracy,
+               order=order, printed=run.out)
+    msgs, D = judge(cfg, out, limit, eps)
+    # the step-wise calls do not look at the stop criterion (C11): judge only what Solve added
+    msgs = [m for m in msgs if not m.startswith(("[late]", "[early]", "[budget]"))]
+    n, n_pre = out["n"], k + task.get("again", 0)
+    if not msgs and len(D) == n - 1:
+        met = lambda j: (j >= 2 and min(D[:j - 1]) < eps) or j >= limit      # criterion after j trials
+        if n < n_pre:
+            msgs.append(f"[count] {n} trials reported after {n_pre} step-wise iterations")
+        elif n == n_pre and not met(n):
+            msgs.append(f"[early] Solve added nothing after {n_pre} step-wise trials although no subdivided interval was "
+                        f"shorter than eps={eps!r} (smallest {min(D)!r}) and itersLimit={limit} was not reached")
+        elif n > n_pre:
+            first = next((j for j in range(n_pre, n) if met(j)), None)
+            if first is not None:
+                msgs.append(f"[late] the criterion was met after {first} trials but Solve went on to {n}")
+            elif not met(n):
+                msgs.append(f"[early] Solve stopped after {n} trials although no subdivided interval was shorter than "
+                            f"eps={eps!r} (smallest {min(D)!r}) and itersLimit={limit} was not reached")
+    if "Exception" in run.out and not tree._horizon(run, cfg):
+        msgs.append("Solve printed: " + run.out.strip().splitlines()[-1][:120])
+    return msgs
+
+
+def stepwise_chunk(tasks):
+    return [stepwise_case(t) for t in tasks]
 
 
 def eps_classes(D):
@@ -215,6 +273,24 @@ def run(ctx):
             dd = d - 2
             plan.append((cfg, a, dd))
             tasks += [dict(t, alphabet_name=a) for t in tree.tree_tasks(cfg, ALPHABETS[a], dd, split=3)]
+    # step-wise histories with a local refinement that gains a lot, finished by Solve
+    stasks = []
+    for kind in WELLS:
+        for c in (0.37, 0.61, 0.83, 0.12):
+            for k in (3, 6, 10, 17):
+                for n_loc in (5, 25):
+                    for eps, limit in ((1e-3, 150), (1e-5, 150), (1e-3, 40)):
+                        stasks.append(dict(kind=kind, c=c, k=k, n_loc=n_loc, limit=limit, eps=eps, N=1, r=2.5))
+                    stasks.append(dict(kind=kind, c=c, k=k, n_loc=n_loc, limit=200, eps=1e-3, N=1, r=2.5, again=5))
+                    if th or k in (6, 10):
+                        stasks.append(dict(kind=kind, c=c, k=k, n_loc=n_loc, limit=300, eps=0.02, N=2, r=3.0))
+    sout = pmap(stepwise_chunk, [stasks[i:i + 24] for i in range(0, len(stasks), 24)])
+    for chunk, msgs_l in zip([stasks[i:i + 24] for i in range(0, len(stasks), 24)], sout):
+        for t, msgs in zip(chunk, msgs_l):
+            for m in msgs:
+                res.add_violation(dict(driver="stepwise", task=t,
+                                   message=f"{t['kind']} objective at u={t['c']}, N={t['N']}: DoGlobalIteration({t['k']}), "
+                                           f"DoLocalRefinement({t['n_loc']}), Solve (eps={t['eps']}, itersLimit={t['limit']}): {m}"))
     out = pmap(block, tasks)
     runs = hist = classes = nontriv = 0
     outcomes = set()
@@ -255,6 +331,8 @@ def run(ctx):
 
 
 def replay(rec):
+    if rec["driver"] == "stepwise":
+        return stepwise_case(rec["task"])
     cfg = rec["cfg"]
     if rec["driver"] == "horizon":
         _, viol = horizon_case(dict(cfg=cfg, dev=rec["dev"]))
